@@ -265,6 +265,9 @@ func c03Mutations() []c03Mut {
 				return false
 			}
 			m, _ := e.n.Chain.GetFrontierMomentumStore().GetMomentumByHeight(h - uint64(1+e.r.Intn(6)))
+			if m == nil {
+				return false
+			}
 			b.MomentumAcknowledged = m.Identifier()
 			return true
 		}},
@@ -317,6 +320,25 @@ func c03Mutations() []c03Mut {
 		{"FromBlockHash=zero", func(b *nom.AccountBlock, e *c03Env) bool { b.FromBlockHash = types.Hash{}; return true }},
 		{"FromBlockHash=send-to-somebody-else", func(b *nom.AccountBlock, e *c03Env) bool { b.FromBlockHash = e.otherSend; return !e.otherSend.IsZero() }},
 		{"FromBlockHash=already-received", func(b *nom.AccountBlock, e *c03Env) bool { b.FromBlockHash = e.doneSend; return !e.doneSend.IsZero() }},
+		{"FromBlockHash=already-received+ack=older", func(b *nom.AccountBlock, e *c03Env) bool {
+			// the second receive acknowledges an older momentum (allowed as long as it is not older than the
+			// predecessor's): the "already received" marker must still be found
+			if e.doneSend.IsZero() {
+				return false
+			}
+			b.FromBlockHash = e.doneSend
+			st := e.n.Chain.GetFrontierMomentumStore()
+			pred, _ := e.n.Chain.GetFrontierAccountStore(b.Address).ByHeight(b.Height - 1)
+			if pred == nil {
+				return false
+			}
+			m, _ := st.GetMomentumByHeight(pred.MomentumAcknowledged.Height)
+			if m == nil {
+				return false
+			}
+			b.MomentumAcknowledged = m.Identifier()
+			return true
+		}},
 		{"FromBlockHash=own-hash-of-a-receive", func(b *nom.AccountBlock, e *c03Env) bool { b.FromBlockHash = e.otherBlock; return !e.otherBlock.IsZero() }},
 		{"DescendantBlocks+1", func(b *nom.AccountBlock, e *c03Env) bool {
 			d := &nom.AccountBlock{Version: 1, ChainIdentifier: b.ChainIdentifier, BlockType: nom.BlockTypeContractSend, Address: b.Address, ToAddress: e.attacker.Address,
